@@ -3,7 +3,7 @@ import Mathlib.Tactic.Ring
 import Mathlib.Algebra.BigOperators.Group.List.Basic
 import OnlVerif.Lemmas.Port
 import OnlVerif.Net.GenSink
-import OnlVerif.Lemmas.NetworkLayer
+import OnlVerif.Lemmas.NetworkNodes
 /-!
 # C08 — packets are never lost, duplicated or invented between source and sink
 
@@ -275,4 +275,152 @@ theorem network_drains {σ : Type} (n : Wiring ι π κ) (nd : ι → Node π σ
     omega
 
 end Network
+
+/-! ### the element skeletons are nodes -/
+
+section Instances
+
+/-- **Every FifoServer device is a node** (Port, Wire, TokenBucket, TwoRateTokenBucket — every `d` with `Fifo.IdPreserving d`):
+with packets identified by their ids, invariant `Fifo.Shape`, held packets `Fifo.held` and quiescence `Fifo.Quiescent`, each
+accepted action of the LTS is a local transition (`put` accepted / refused = `recv`, a departure = `emit`, a wire loss =
+`discard`, everything else internal) satisfying the node interface and the id-preservation assumption.  From
+`Fifo.step_conserves` (the step form of `Fifo.run_conserves`) and `Fifo.quiescent_held_empty`. -/
+theorem fifo_node {δ : Type} (d : Dev ℚ δ) (hd : Fifo.IdPreserving d) :
+    NodeLaw (fifoNode d) ∧ Net.IdPreserving (fifoNode d) ∧
+    ∀ dev0 t0, (fifoNode d).Inv (Fifo.init dev0 t0) ∧ (fifoNode d).heldOf (Fifo.init dev0 t0) = [] :=
+  ⟨fifoNode_law d hd, fifoNode_id d hd, fun dev0 t0 => ⟨Fifo.init_shape dev0 t0, Fifo.init_held dev0 t0⟩⟩
+
+/-- **Every lawful multi-queue scheduler is a node** (SP, RR, WRR, DRR — `MQ.Lawful sc`, `C12.mq_instances_lawful`): over a
+duplicate-free list `cs` of its classes that contains the class of every configured flow, with invariant `MQ.Inv`, held
+packets = the per-class held lists of C12's "Per-class FIFO and conservation" (`MQ.heldC`) one after the other, quiescence =
+the clock may advance and no transmission is in progress (the hypothesis of `C12.mq_every_packet_once`).  From `MQ.step_inv`
+(the step form of `C12.mq_class_fifo`), summed over the classes.  Departures count for packets of configured flows. -/
+theorem mq_node {κ : Type} (sc : MQ.Sched ℚ κ) (L : MQ.Lawful sc) (cs : List Nat) (hn : cs.Nodup)
+    (hcs : ∀ f c, sc.classOf f = some c → c ∈ cs) :
+    NodeLaw (mqNode sc cs) ∧ Net.IdPreserving (mqNode sc cs) ∧
+    ∀ k0 t0 counts, (∀ e ∈ counts, e.2 = 0) →
+      (mqNode sc cs).Inv (MQ.start k0 t0 counts) ∧ (mqNode sc cs).heldOf (MQ.start k0 t0 counts) = [] := by
+  refine ⟨mqNode_law sc L cs hn hcs, mqNode_id sc L cs hcs, fun k0 t0 counts hz => ?_⟩
+  have h0 := MQ.init_inv sc k0 t0 counts hz
+  refine ⟨h0.1, ?_⟩
+  show mqHeld sc cs (MQ.start k0 t0 counts) = []
+  unfold mqHeld
+  rw [List.flatMap_eq_nil_iff]
+  intro c _
+  exact h0.2 c
+
+/-- **Every stamp scheduler is a node** (WFQ, VirtualClock): invariant `Stamp.GInv`, held packets `Stamp.held`, quiescence =
+the clock may advance with nothing in transmission (the hypothesis of `C12.stamp_every_packet_once`).  From `Stamp.step_ginv`
+(the step form of that theorem) and `Stamp.tick_idle_empty`. -/
+theorem stamp_node {σ : Type} (d : Sched ℚ σ) :
+    NodeLaw (stampNode d) ∧ Net.IdPreserving (stampNode d) ∧
+    ∀ sch0 t0, (stampNode d).Inv (Stamp.init sch0 t0) ∧ (stampNode d).heldOf (Stamp.init sch0 t0) = [] := by
+  refine ⟨stampNode_law d, stampNode_id d, fun sch0 t0 => ⟨Stamp.init_ginv sch0 t0, ?_⟩⟩
+  simp [stampNode, Stamp.held, Stamp.inHand, Stamp.waiting, Stamp.init]
+
+/-- **A demultiplexer is a node whose wiring function is its dispatch rule**: a dispatcher forwards synchronously, so as a
+node it is the canonical account node (it holds a packet only between its `put` and its `out.put`; lawful and id-preserving),
+and its `next` function is `FlowDemux.put` (`C18.flowdemux_rule`): a packet of flow `f` goes to output `f`, else to the default
+output, else nowhere (a sink number of its own) — and what is handed on is the object that was put (same id, same copy
+number). -/
+theorem demux_node {ι : Type} (c : Route.FlowDemuxCfg) (dest : Route.Dev → Dest ι) (nowhere : Nat) (p : NPkt) :
+    NodeLaw (acctNode NPkt) ∧ Net.IdPreserving (acctNode NPkt) ∧
+    demuxNext c dest nowhere p = (match c.outs[p.flow]? with
+      | some d => dest d
+      | none => match c.default with
+        | some d => dest d
+        | none => .sink nowhere) ∧
+    (∀ l, Route.FlowDemux.put c (toRoute p) = .ok l → ∀ x ∈ l, x.2 = ⟨p.id, p.copy⟩) := by
+  refine ⟨acctNode_law NPkt, acctNode_id NPkt, ?_, ?_⟩
+  · unfold demuxNext
+    rw [flowDemux_put_eq]
+    cases c.outs[p.flow]? with
+    | some d => rfl
+    | none => cases c.default <;> rfl
+  · intro l hl x hx
+    rw [flowDemux_put_eq] at hl
+    cases ho : c.outs[p.flow]? with
+    | some d => rw [ho] at hl; cases hl; simp at hx; rw [hx]
+    | none =>
+      rw [ho] at hl
+      cases hd : c.default with
+      | some d => rw [hd] at hl; cases hl; simp at hx; rw [hx]
+      | none => rw [hd] at hl; cases hl; cases hx
+
+/-- **A splitter is a node that makes fresh copies**: it is the canonical account node marked as a splitter; for a held
+packet `p` and an unused copy number `k`, making the copy `{p with copy := k}` is a legal global step, after which original and
+copy are forwarded like any held packet; and this is `Splitter.put` (`C18.splitter_rule`): the original object to the first
+output, an object with the same id and the fresh copy number to the second. -/
+theorem splitter_node {ι : Type} [DecidableEq ι] (next : ι → NPkt → Dest ι) (spl : ι → Bool) (g : GState ι NPkt) (a : ι)
+    (p : NPkt) (k : Nat) (hs : spl a = true) (hp : p ∈ (g.acct a).held) (hk : k ≠ p.copy)
+    (hfresh : (p.id, k) ∉ usedKeys (nwiring next spl) g) :
+    NodeLaw (acctNode NPkt) ∧ Net.IdPreserving (acctNode NPkt) ∧
+    Net.step (nwiring next spl) g (.copy a p { p with copy := k }) =
+      .ok (Net.apply (nwiring next spl) g (.copy a p { p with copy := k })) ∧
+    (∀ d1 d2, Route.Splitter.put { out1 := some d1, out2 := some d2 } (toRoute p) k =
+      [(d1, ⟨p.id, p.copy⟩), (d2, ⟨p.id, k⟩)]) := by
+  refine ⟨acctNode_law NPkt, acctNode_id NPkt, ?_, fun d1 d2 => rfl⟩
+  have hc : NPkt.isCopyOf p { p with copy := k } = true := by
+    simp [NPkt.isCopyOf, hk]
+  simp only [Net.step, illegal, nwiring, hs, hp, not_true_eq_false, if_false, hc]
+  have : ¬ ((p.id, k) ∈ usedKeys (nwiring next spl) g) := hfresh
+  simp only [nwiring] at this
+  simp [this]
+
+end Instances
+
+/-! ### a concrete network (non-vacuity): generator → port 0 → demux 1 → { wire 2 → sink 1, DRR 3 → sink 2 } -/
+
+section Example
+
+/-- flow 0 goes to the wire (node 2), flow 1 to the DRR scheduler (node 3); the demux (node 1) is a `FlowDemux` -/
+def exNext : Nat → NPkt → Dest Nat
+  | 0, _ => .node 1
+  | 1, p => demuxNext { outs := [2, 3] } (fun d => .node d) 99 p
+  | 2, _ => .sink 1
+  | _, _ => .sink 2
+
+def exPk (id flow : Nat) : NPkt := { id := id, flow := flow, src := 7, size := 100 * id, time := id, payload := 1000 + id }
+
+/-- five packets; packet 3 is tail-dropped by the port (rule 1), packet 4 is lost on the wire (rule 2), packets 2 and 5 leave
+the DRR scheduler in the other order than they entered the network, packet 1 is still held by the wire at the end -/
+def exRun : List (GEv Nat NPkt) :=
+  [.inject 0 (exPk 1 0) .acc, .inject 0 (exPk 2 1) .acc, .inject 0 (exPk 3 0) (.ref 1), .fwd 0 (exPk 1 0) .acc,
+   .fwd 1 (exPk 1 0) .acc, .inject 0 (exPk 4 0) .acc, .tau 2, .fwd 0 (exPk 2 1) .acc, .fwd 1 (exPk 2 1) .acc,
+   .inject 0 (exPk 5 1) .acc, .fwd 0 (exPk 4 0) .acc, .fwd 1 (exPk 4 0) .acc, .drop 2 (exPk 4 0) 2,
+   .fwd 0 (exPk 5 1) .acc, .fwd 1 (exPk 5 1) .acc, .fwd 3 (exPk 5 1) .acc, .fwd 3 (exPk 2 1) .acc]
+
+/-- (held ids, dropped (id, rule)) of nodes 0–3, and the deliveries (sink, id) -/
+def exDigest (r : Except String (GState Nat NPkt)) : Option (List (List Nat × List (Nat × Nat)) × List (Nat × Nat)) :=
+  match r with
+  | .ok g => some ([0, 1, 2, 3].map (fun a => ((g.acct a).held.map (·.id), (g.acct a).dropped.map fun x => (x.1.id, x.2))),
+      g.delivered.map fun x => (x.1, x.2.id))
+  | .error _ => none
+
+/-- the run is accepted (the hypothesis of `network_conserves` / `network_identity`); at its end packet 1 is held by the wire,
+3 was dropped by the port, 4 by the wire, 5 and 2 are at sink 2 -/
+example : exDigest (Net.run (nwiring exNext) {} exRun) =
+    some ([([], [(3, 1)]), ([], []), ([1], [(4, 2)]), ([], [])], [(2, 5), (2, 2)]) := by decide +kernel
+
+/-- a step that forwards a packet the node does not hold is refused -/
+example : exDigest (Net.run (nwiring exNext) {} (exRun ++ [.fwd 3 (exPk 2 1) .acc])) = none := by decide +kernel
+
+/-- a splitter in front: node 0 is a splitter, the original goes on, the copy (copy number 1) as well; a second copy with
+the same copy number is refused -/
+example : exDigest (Net.run (nwiring (fun a p => if a = 0 then (if p.copy = 0 then .node 2 else .node 3) else exNext a p)
+      (fun a => a == 0)) {}
+    [.inject 0 (exPk 1 0) .acc, .copy 0 (exPk 1 0) { exPk 1 0 with copy := 1 }, .fwd 0 (exPk 1 0) .acc,
+     .fwd 0 { exPk 1 0 with copy := 1 } .acc, .fwd 3 { exPk 1 0 with copy := 1 } .acc]) =
+    some ([([], []), ([], []), ([1], []), ([], [])], [(2, 1)]) ∧
+  exDigest (Net.run (nwiring (fun a p => if a = 0 then (if p.copy = 0 then .node 2 else .node 3) else exNext a p)
+      (fun a => a == 0)) {}
+    [.inject 0 (exPk 1 0) .acc, .copy 0 (exPk 1 0) { exPk 1 0 with copy := 1 },
+     .copy 0 (exPk 1 0) { exPk 1 0 with copy := 1 }]) = none := by decide +kernel
+
+/-- the hypotheses of `mq_node` are met by a DRR scheduler with classes 7 and 8 -/
+example : MQ.Lawful (DRR.sched ({ rate := 8000, weights := [(7, 1), (8, 1)], flowMap := some [(1, 7), (2, 7), (3, 8)] } : DRR.Cfg ℚ)) :=
+  DRR.lawful _
+
+end Example
+
 end C08
